@@ -115,6 +115,10 @@ class Policy(object):
     def compare_raises(self, node, frame):
         return frozenset()
 
+    def truth_raises(self, test, frame):
+        """atoms the truth test of expression `test` may raise (user objects with a raising __bool__ / __len__)"""
+        return frozenset()
+
 
 class LazyMap(object):
     """atom -> node, built on demand and memoised"""
@@ -554,6 +558,13 @@ class Builder(object):
         b = self.node('branch', test, frame, test=test, what='if ' + norm(test))
         b.edge('true', t)
         b.edge('false', f)
+        ra = self.policy.truth_raises(test, frame)
+        if ra:
+            tn = self.node('truth', test, frame, what='truth value of ' + norm(test))
+            tn.edge('next', b)
+            for a in sorted(ra):
+                tn.edge('exc:' + a, ctx.exc[a])
+            b = tn
         return self.expr(test, ctx.w(next=b), frame)
 
     # ------------------------------------------------------------------ statements
